@@ -16,7 +16,7 @@ ANCHORS = [("deap/gp.py", ["PrimitiveTree.__str__", "PrimitiveTree.from_string",
 LEVEL = "partial"
 RULE = ("every primitive set (untyped with 0/1/2 arguments incl. renamed arguments, named terminals (also as the single node "
         "of a zero-argument set), negative constants, anonymous constants equal by == but of different type / sign of zero, "
-        "ephemerals; strongly typed int/bool/float with a subclass pair and dyadic float constants; a two-level ADF family) x "
+        "ephemerals; strongly typed int/bool/float with a subclass pair and dyadic float constants; a two-level ADF family with 1- and 0-argument main sets, a zero-argument ADF set) x "
         "trees of height 0..6 from genFull/genGrow/genHalfAndHalf and from chains of the variation operators; for each tree: "
         "str vs strBuilder vs render, the source handed to eval vs compileSrc, re.split tokens vs tokens, from_string(str(t)) vs "
         "fromString, gp.compile(t)(*args) vs evalTree on an argument grid + random values; plus hand-made strings for the "
@@ -34,9 +34,6 @@ TRUSTED = ["CPython's eval of the generated source `lambda args: f(g(x), y)`: th
 ASSUMPTIONS = ["node texts (primitive names, argument names, named terminals, reprs of constants) are non-empty and contain no "
                "separator character ` \\t\\n\\r\\f\\v(),` — ints, floats, bools, identifiers",
                "the value of an ephemeral / constant has a Python type that is a subclass of its declared type",
-               "ADF sets have at least one argument (a zero-argument ADF is bound to its VALUE by compileADF and the call "
-               "`ADF0()` raises TypeError: candidate finding 'compileADF-zero-arg-adf'; the model gives the call its "
-               "denotation)",
                "float constants are normal doubles (the driver's decimal reader is exact there; subnormals are not generated)"]
 MIN_CASES = 1000
 CASE_TIMEOUT = 20
@@ -621,7 +618,7 @@ def evaluate(d):
         return cases
 
     if k == "adf0":
-        # candidate finding: a zero-argument ADF set; the main tree calls `ADF0()`
+        # a zero-argument ADF set; the main tree calls `ADF0()`
         fam = get_adf0()
         psets = [ps.pset for ps in fam]
         trees = [make_tree(ps.pset, g) for ps, g in zip(fam, d["gs"])]
@@ -639,7 +636,7 @@ def evaluate(d):
             orc = None if all(same_value(a, b) for a, b in zip(got, want)) else \
                 "compileADF with a zero-argument ADF computes %r, the trees denote %r" % (got, want)
         except TypeError as e:
-            got, orc = want, "compileADF with a zero-argument ADF: calling the compiled program raises %s" % e
+            orc = "compileADF with a zero-argument ADF: calling the compiled program raises %s" % e
         return Case(d, [line], [",".join(val_tok(v) for v in want)], orc, tag="adf0", nontrivial=True)
 
     if k == "adf-late":
@@ -785,10 +782,9 @@ def generate(tier, rng, mult):
                         continue
                     for _ in range(2 if thorough else 1):
                         yield {"k": "tree", "ps": key, "g": gen_desc(rng, mn, mx, mode), "seed": rng.randrange(1 << 30)}
-    if adf0_known():
-        for _ in range(40):
-            yield {"k": "adf0", "gs": [gen_desc(rng, 1, 2, "full"), gen_desc(rng, 0, 2, "half")],
-                   "seed": rng.randrange(1 << 30)}
+    for _ in range((2000 if thorough else 150) * mult):
+        yield {"k": "adf0", "gs": [gen_desc(rng, 1, 2, "full"), gen_desc(rng, 0, 2, "half")],
+               "seed": rng.randrange(1 << 30)}
     for _ in range((3000 if thorough else 150) * mult):
         gs = [gen_desc(rng, rng.randint(0, 2), 2, rng.choice(["full", "grow", "half"])) for _ in range(6)]
         yield {"k": "adf-late", "gs": gs, "seed": rng.randrange(1 << 30)}
@@ -858,20 +854,5 @@ def shrink(d):
             yield e
 
 
-ADF0_KEY = "compileADF-zero-arg-adf"
-
-
-def adf0_known(known=None):
-    if known is None:
-        import lib
-        known = lib.load_known("C12")
-    for k in known:
-        if ADF0_KEY in (k.get("key", "") + " " + k.get("what", "")):
-            return k.get("id")
-    return None
-
-
 def classify(desc, msg, known):
-    if isinstance(desc, dict) and desc.get("k") == "adf0":
-        return adf0_known(known)
     return None
